@@ -171,6 +171,10 @@ func init() {
 		in.note(concString(args[0], "vrt.Note"))
 		return nil, nil
 	})
+	reg(vrtPath+"PreemptAtLocks", func(in *Interp, g *Goroutine, fn *ssa.Function, args []Value) (Value, *tailCall) {
+		in.preemptLocks = args[0].(*Term).IsTrue()
+		return nil, nil
+	})
 	reg(vrtPath+"Quiesce", func(in *Interp, g *Goroutine, fn *ssa.Function, args []Value) (Value, *tailCall) {
 		// wait until every other goroutine has finished or is blocked for good
 		busy := func() bool {
@@ -212,6 +216,9 @@ func init() {
 		if p.obj == nil {
 			in.goPanic("nil mutex")
 		}
+		if in.maybePreempt(g) {
+			return nil, nil
+		}
 		st, _ := p.obj.cells[p.off].(*Term)
 		if st != nil && st.IsConst() && st.cv != 0 {
 			obj, off := p.obj, p.off
@@ -245,6 +252,9 @@ func init() {
 	// RWMutex: cell0 = writer flag (w.state), cell2.. ; we use the first two cells: [0]=writer, [1]=readers
 	rw := func(p PtrV) (*Object, int) { return p.obj, p.off }
 	reg("(*sync.RWMutex).Lock", func(in *Interp, g *Goroutine, fn *ssa.Function, args []Value) (Value, *tailCall) {
+		if in.maybePreempt(g) {
+			return nil, nil
+		}
 		o, off := rw(args[0].(PtrV))
 		wv, _ := o.cells[off].(*Term)
 		rv, _ := o.cells[off+1].(*Term)
@@ -1313,4 +1323,29 @@ func init() {
 			return nil, nil
 		})
 	}
+}
+
+// maybePreempt makes lock acquisitions scheduling points (when enabled by the harness and
+// while the schedule budget lasts): the goroutine may yield to another runnable one first.
+func (in *Interp) maybePreempt(g *Goroutine) bool {
+	if !in.preemptLocks || in.specDepth > 0 || in.schedUsed >= in.schedules || g.justYielded {
+		g.justYielded = false
+		return false
+	}
+	others := false
+	for _, o := range in.gs {
+		if o != g && !o.done && (!o.blocked || (o.ready != nil && o.ready())) {
+			others = true
+		}
+	}
+	if !others {
+		return false
+	}
+	if in.schedChoice(2) == 1 {
+		g.justYielded = true
+		g.yielded = true
+		in.block(g, nil, "yield", func() bool { return true })
+		return true
+	}
+	return false
 }
